@@ -118,6 +118,9 @@ class Curve(object):
         if p == self._infinity or e == 0:
             return self._infinity
 
+        # results always carry coordinates in [0, p), also when no addition takes place (e == 1)
+        p = self.Point(p[0] % self._p, p[1] % self._p)  # type: ignore[operator]
+
         e3 = 3 * e
         i = _leftmost_bit(e3) >> 1
         result = p
